@@ -302,6 +302,16 @@ Qed.
 
 (* ---------------------------------------------------------------- labels *)
 
+Lemma nth_error_ext_eq {A} : forall (l l' : list A),
+  (forall n, nth_error l n = nth_error l' n) -> l = l'.
+Proof.
+  induction l as [|a l IH]; intros [|b l'] H; try reflexivity;
+    try (specialize (H O); discriminate).
+  f_equal.
+  - specialize (H O). cbn in H. congruence.
+  - apply IH. intro n. exact (H (S n)).
+Qed.
+
 Section LabelProofs.
   Variable L : Type.
   Variable leb eqb : L -> L -> bool.
@@ -486,6 +496,99 @@ Section LabelProofs.
     - apply eqb_spec in E. inversion H; subst. split; left; reflexivity.
     - destruct (IH rs l p H). split; right; assumption.
   Qed.
+
+
+  (* ---- a tree's columns placed by the tree's own classes_ (trees fitted on bootstrap bags) *)
+  Lemma prob_of_none : forall tcls row c, ~ In c tcls -> prob_of eqb tcls row c = None.
+  Proof.
+    induction tcls as [|t ts IH]; intros [|p ps] c H; cbn [prob_of]; try reflexivity.
+    destruct (eqb t c) eqn:E.
+    - apply eqb_spec in E. subst c. exfalso. apply H. left. reflexivity.
+    - apply IH. intro Hc. apply H. right. exact Hc.
+  Qed.
+
+  (* a class the tree never saw gets probability 0 from that tree *)
+  Lemma prob_or0_unseen tcls row c : ~ In c tcls -> prob_or0 eqb tcls row c = 0.
+  Proof. intro H. unfold prob_or0. rewrite prob_of_none by exact H. reflexivity. Qed.
+
+  (* a class the tree saw gets the tree's own column for it *)
+  Lemma prob_or0_seen tcls row i c p : NoDup tcls ->
+    nth_error tcls i = Some c -> nth_error row i = Some p -> prob_or0 eqb tcls row c = p.
+  Proof.
+    intros Hnd Hc Hp. unfold prob_or0. rewrite (prob_of_nth tcls row i c p Hnd Hc Hp). reflexivity.
+  Qed.
+
+  Lemma prob_or0_cons t ts p ps c : ~ In t ts ->
+    prob_or0 eqb (t :: ts) (p :: ps) c == (if eqb t c then p else 0) + prob_or0 eqb ts ps c.
+  Proof.
+    intro H. unfold prob_or0. cbn [prob_of]. destruct (eqb t c) eqn:E.
+    - apply eqb_spec in E. subst c. rewrite prob_of_none by exact H. ring.
+    - ring.
+  Qed.
+
+  Lemma prob_or0_in_or0 tcls row c : prob_or0 eqb tcls row c = 0 \/ In (prob_or0 eqb tcls row c) row.
+  Proof.
+    unfold prob_or0. destruct (prob_of eqb tcls row c) as [p|] eqn:E; [|left; reflexivity].
+    right. apply (prob_of_in tcls row c p E).
+  Qed.
+
+  Lemma place_row_length classes tcls row : length (place_row eqb classes tcls row) = length classes.
+  Proof. apply map_length. Qed.
+
+  (* placing loses no probability mass: every column of the tree lands under exactly one class *)
+  Lemma place_row_sum classes : NoDup classes -> forall tcls row,
+    NoDup tcls -> incl tcls classes -> length row = length tcls ->
+    qsum (place_row eqb classes tcls row) == qsum row.
+  Proof.
+    intros Hnd. induction tcls as [|t ts IH]; intros row Hnt Hin Hl.
+    - destruct row; [|discriminate]. unfold place_row.
+      rewrite (qsum_map_ext _ (fun _ => 0)) by (intros; reflexivity).
+      rewrite qsum_map_const. cbn. ring.
+    - destruct row as [|p ps]; [discriminate|]. inversion Hnt as [|? ? Hnin Hnt']; subst.
+      unfold place_row.
+      rewrite (qsum_map_ext _ (fun c => (if eqb t c then p else 0) + prob_or0 eqb ts ps c))
+        by (intros; apply prob_or0_cons; exact Hnin).
+      rewrite qsum_map_plus, indicator_sum by exact Hnd.
+      assert (E : existsb (eqb t) classes = true).
+      { apply existsb_exists. exists t. split; [apply Hin; left; reflexivity|apply eqb_refl]. }
+      rewrite E. fold (place_row eqb classes ts ps). rewrite IH.
+      + rewrite qsum_cons. reflexivity.
+      + exact Hnt'.
+      + intros z Hz. apply Hin. right. exact Hz.
+      + cbn in Hl. congruence.
+  Qed.
+
+  Lemma place_row_is_dist classes tcls row :
+    NoDup classes -> NoDup tcls -> incl tcls classes -> is_dist (length tcls) row ->
+    is_dist (length classes) (place_row eqb classes tcls row).
+  Proof.
+    intros Hnd Hnt Hin (Hl & Hr & Hs). apply dist_of_nonneg.
+    - apply place_row_length.
+    - apply Forall_forall. intros q Hq. unfold place_row in Hq. apply in_map_iff in Hq.
+      destruct Hq as (c & <- & _). destruct (prob_or0_in_or0 tcls row c) as [E|Hi].
+      + rewrite E. lra.
+      + rewrite Forall_forall in Hr. apply Hr in Hi. lra.
+    - rewrite place_row_sum by assumption. exact Hs.
+  Qed.
+
+  Lemma place_row_nth classes tcls row j c : nth_error classes j = Some c ->
+    nth j (place_row eqb classes tcls row) 0 = prob_or0 eqb tcls row c.
+  Proof.
+    intro H. unfold place_row. apply nth_error_nth. rewrite nth_error_map, H. reflexivity.
+  Qed.
+
+  (* a tree that saw every class (its classes_ are the forest's): placing changes nothing *)
+  Lemma place_row_same : forall classes row, NoDup classes -> length row = length classes ->
+    place_row eqb classes classes row = row.
+  Proof.
+    intros classes row Hnd Hl. apply nth_error_ext_eq. intro j. unfold place_row.
+    rewrite nth_error_map. destruct (nth_error classes j) as [c|] eqn:Ec; cbn [option_map].
+    - destruct (nth_error row j) as [p|] eqn:Ep.
+      + f_equal. eapply prob_or0_seen; eauto.
+      + apply nth_error_None in Ep. assert (j < length classes)%nat by (apply nth_error_Some; congruence). lia.
+    - symmetry. apply nth_error_None. apply nth_error_None in Ec. lia.
+  Qed.
+
 
   Lemma predict_attains_max_and_is_training_label ys row :
     ys <> [] -> length row = length (classes_of leb eqb ys) ->
@@ -816,32 +919,61 @@ Qed.
 
 (* ---------------------------------------------------------------- the ensembles *)
 
-Lemma tsf_proba_is_mean_of_trees_on_features k forest x :
-  forest <> [] ->
-  (forall m, In m forest -> is_dist k (snd m (tsf_features (fst m) x))) ->
-  is_dist k (tsf_proba k forest x) /\
-  forall j, (j < k)%nat ->
-    nth j (tsf_proba k forest x) 0 ==
-    qsum (map (fun m => nth j (snd m (tsf_features (fst m) x)) 0) forest) / qlen forest.
-Proof.
-  intros Hne Hd. unfold tsf_proba, tsf_member_outputs.
-  assert (Hall : Forall (is_dist k) (map (fun m => snd m (tsf_features (fst m) x)) forest)).
-  { apply Forall_forall. intros r Hr. apply in_map_iff in Hr. destruct Hr as (m & <- & Hm). auto. }
-  split.
-  - apply avg_of_distributions_is_distribution; [|exact Hall].
-    destruct forest; [congruence|discriminate].
-  - intros j Hj. rewrite mean_rows_nth; [| |exact Hj].
-    + rewrite map_map. unfold qlen. rewrite map_length. reflexivity.
-    + eapply Forall_impl; [|exact Hall]. intros r (Hl & _). exact Hl.
-Qed.
+(* the forest over trees that each carry their own classes_: every tree's row is placed under the
+   forest's classes by label, then the rows are averaged *)
+Section Forest.
+  Variable L : Type.
+  Variable eqb : L -> L -> bool.
+  Hypothesis eqb_spec : forall a b, eqb a b = true <-> a = b.
 
-Lemma tsf_proba_depends_on_features_only k forest x x' :
-  (forall m, In m forest -> tsf_features (fst m) x = tsf_features (fst m) x') ->
-  tsf_proba k forest x = tsf_proba k forest x'.
-Proof.
-  intro H. unfold tsf_proba, tsf_member_outputs. f_equal. apply map_ext_in.
-  intros m Hm. cbn beta. f_equal. apply H. exact Hm.
-Qed.
+  Definition tree_ok (classes : list L) (x : list Q) (m : fmember L) : Prop :=
+    NoDup (tree_classes m) /\ incl (tree_classes m) classes /\
+    is_dist (length (tree_classes m)) (tree_row m x).
+
+  Lemma tsf_proba_is_mean_of_trees_on_features classes forest x :
+    forest <> [] -> NoDup classes ->
+    (forall m, In m forest -> tree_ok classes x m) ->
+    is_dist (length classes) (tsf_proba eqb classes forest x) /\
+    forall j c, nth_error classes j = Some c ->
+      nth j (tsf_proba eqb classes forest x) 0 ==
+      qsum (map (fun m => prob_or0 eqb (tree_classes m) (tree_row m x) c) forest) / qlen forest.
+  Proof.
+    intros Hne Hnd Hd. unfold tsf_proba, tsf_member_outputs.
+    set (rows := map (fun m => place_row eqb classes (tree_classes m) (tree_row m x)) forest).
+    assert (Hall : Forall (is_dist (length classes)) rows).
+    { apply Forall_forall. intros r Hr. apply in_map_iff in Hr. destruct Hr as (m & <- & Hm).
+      destruct (Hd m Hm) as (H1 & H2 & H3). apply place_row_is_dist; assumption. }
+    split.
+    - apply avg_of_distributions_is_distribution; [|exact Hall].
+      unfold rows. destruct forest; [congruence|discriminate].
+    - intros j c Hc. rewrite mean_rows_nth.
+      + unfold rows. rewrite map_map. unfold qlen. rewrite map_length.
+        rewrite (qsum_map_ext _ (fun m => prob_or0 eqb (tree_classes m) (tree_row m x) c));
+          [reflexivity|].
+        intros m _. rewrite (place_row_nth L eqb classes _ _ j c Hc). reflexivity.
+      + eapply Forall_impl; [|exact Hall]. intros r (Hl & _). exact Hl.
+      + apply nth_error_Some. congruence.
+  Qed.
+
+  (* all trees saw every class (TimeSeriesForestClassifier, RISE: trees are fitted on the whole
+     training set): the plain column-wise mean of the trees' rows *)
+  Lemma tsf_proba_full_trees classes forest x :
+    NoDup classes ->
+    (forall m, In m forest -> tree_classes m = classes /\ length (tree_row m x) = length classes) ->
+    tsf_proba eqb classes forest x = mean_rows (length classes) (map (fun m => tree_row m x) forest).
+  Proof.
+    intros Hnd H. unfold tsf_proba, tsf_member_outputs. f_equal. apply map_ext_in. intros m Hm.
+    destruct (H m Hm) as [E Hl]. rewrite E. apply place_row_same; assumption.
+  Qed.
+
+  Lemma tsf_proba_depends_on_features_only classes forest x x' :
+    (forall m, In m forest -> tsf_features (fst m) x = tsf_features (fst m) x') ->
+    tsf_proba eqb classes forest x = tsf_proba eqb classes forest x'.
+  Proof.
+    intro H. unfold tsf_proba, tsf_member_outputs. f_equal. apply map_ext_in.
+    intros m Hm. cbn beta. unfold tree_row. rewrite (H m Hm). reflexivity.
+  Qed.
+End Forest.
 
 Lemma tsf_regressor_is_mean_of_trees forest x lo hi :
   forest <> [] ->
